@@ -79,7 +79,20 @@ class Cuboid:
         return self.pos + self.size / 2
 
     def contains_point(self, points):
-        raise core.Abort("unsupported", "Cuboid.contains_point")
+        # pde.tools.cuboid.Cuboid.contains_point: np.all(c1 <= points, -1) & np.all(points <= c2, -1)
+        pts = objarr(points)
+        if len(pts) == 0:
+            return pts
+        if pts.shape[-1] != self.dim:
+            raise ValueError(f"Last dimension of `points` must agree with cuboid dimension {self.dim}")
+        c1, c2 = self.corners
+        flat = pts.reshape(-1, self.dim)
+        out = _np.empty(flat.shape[0], dtype=object)
+        for i in range(flat.shape[0]):
+            out[i] = core.And(*[core.And(c1[k] <= flat[i, k], flat[i, k] <= c2[k]) for k in range(self.dim)])
+        if pts.ndim == 1:
+            return out[0]
+        return out.reshape(pts.shape[:-1])
 
     def __add__(self, other):
         a1, a2 = self.corners
